@@ -386,6 +386,9 @@ def run(analysis: Analysis, tier: str) -> RuleResult:
     if len(sites) < 10:
         raise AnalysisError(f"C07-R1: only {len(sites)} sink sites found, expected at least 10")
     container_freshness(analysis, res)
+    # R6: "once a node has announced smart sleep": the sleeping test reads the node's desired-state map, which
+    # only the wake-up announcement fills; nothing may empty or replace it afterwards
+    common.check_no_key_removal(analysis, res, "C07-R6")
     res.units = {"contexts": len(specs), "paths": sum(s["paths"] for s in sums), "sink_events_classified": total_sinks, "sink_sites": len(sites) + 1, "source_digest": analysis.p.digest()}
     res.not_decided = ["timing of the burst"]
     res.assumptions = ["INV-KEY-ID (C01-INV): sensors[k].sensor_id == k", "user code that calls Gateway.send() with hand-built strings is outside the rule (documented raw API)"]
